@@ -24,6 +24,9 @@ import (
 
 var errInjectedRead = errors.New("verif: injected storage read failure")
 
+// stateObservations: behaviour outside what C01 states (printed as OBSERVATION lines by the check).
+var stateObservations []string
+
 type readFaults struct {
 	mu    sync.Mutex
 	n, at int
@@ -250,8 +253,13 @@ func sweepReadFaults(raw db.KeyValueStore, newState bool, build blockBuilder, wa
 		// the update failed (fine); the next fault-free application on the same node must give the right root
 		block, su, classes = build()
 		if err := bc.Finalise(block, su, classes, nil); err != nil {
-			return &stOutcome{key: "state-finalise-error:after-read-fault:" + be, block: bi,
-				what: fmt.Sprintf("after a block application that failed on an injected read fault (%s), the fault-free retry on the same node fails: %v", where, err)}
+			// no root is stored, so nothing C01 states is violated: an observation, never a verdict
+			counts["read_fault_retry_failed"]++
+			if len(stateObservations) < 5 {
+				stateObservations = append(stateObservations, fmt.Sprintf("state-finalise-error:after-read-fault:%s after a block application that failed on an injected "+
+					"read fault (%s), the fault-free retry on the same node fails: %v", be, where, err))
+			}
+			continue
 		}
 		if o := checkStoredRoot(bc, block, want, alt, be, bi, "fault-free retry after "+where); o != nil {
 			return o
